@@ -8,7 +8,7 @@ PROP = "C09"
 SPEC_MODE = "oracle"
 KEEP_PREFIX = 1
 EXTRA_MODULES = ("Sentinel.Lemmas.LeapArrayRace", "Sentinel.Lemmas.LeapArrayRaceTerm", "Sentinel.Lemmas.LeapArrayRaceOwn",
-                 "Sentinel.Lemmas.LeapArrayRaceStarted", "Sentinel.Lemmas.LeapArrayRaceRead")
+                 "Sentinel.Lemmas.LeapArrayRaceStarted", "Sentinel.Lemmas.LeapArrayRaceRead", "Sentinel.Lemmas.LeapArrayRaceDrain")
 SIZES = {"quick": 2500, "thorough": 60000}
 BATCH = 2500
 RULE = ("one case = one schedule: a BucketLeapArray (n in 1..4 buckets, bucket length 1..500 ms) pre-filled sequentially, then a round of "
@@ -403,10 +403,12 @@ META = {
                   "+ schedule correspondence through yield hooks on the real package + counter-example theorem for the false clause"),
     "level_text": ("Theorems in lean/Sentinel/Props/C09.lean about the small-step model Sentinel.LAR (one step = one hooked atomic access of "
                    "currentBucketOfTime / ResetBucketTo / MetricBucket / the readers): no_invention for every schedule and thread count, mutual "
-                   "exclusion of the reset section, termination measures (solo progress, holder release), and the decide-checked witness that "
+                   "exclusion of the reset section, own-bucket crediting under the stall condition, exact accounting, termination (holder release, solo "
+                   "progress, the round-robin drain within an explicit number of rounds, every fair infinite schedule), and the decide-checked witness that "
                    "'expired data is never visible' is false. The model is tied to core/stat/base by replaying the same schedules under the "
                    "deterministic yield-hook scheduler: per-thread return values, the sequence of yield points every thread parks at, and the final "
-                   "buckets are compared line by line; all interleavings of fixed 2-thread configurations are enumerated, 2-3 thread schedules sampled."),
+                   "buckets are compared line by line; all interleavings of fixed 2-thread configurations are enumerated, 2-3 thread schedules sampled, "
+                   "single/double-preemption schedule families cover trees whose step granularity differs from the model's (oracle-only hunt)."),
     "level_note": ("Trusted: Lean kernel; axioms propext/Classical.choice/Quot.sound; Go harness (internal/sched, virtual clock). Modelled not "
                    "verified: sequentially consistent atomics (all accesses are sync/atomic), the three BucketStart loads of one loop iteration of "
                    "currentBucketOfTime as one step (no hook between them), int64 counters as naturals, non-negative amounts. Known finding "
